@@ -190,6 +190,17 @@ func init() {
 	// NOT part of the well-framed alphabet (not in LetterNames): a framed headers message followed
 	// by the bare payload of a verifying headers message, which only means something to a node that
 	// keeps reading past a message it has already disposed of
+	// a verifying reply of 30 headers (2431 bytes of payload, of which the node reads the first
+	// header only): not part of the general alphabet
+	{
+		list := []*wire.BlockHeader{BSVSplit}
+		for i := 0; i < 29; i++ {
+			h := *UnknownHeader
+			h.Nonce = uint32(1000 + i)
+			list = append(list, &h)
+		}
+		Letters["headers[bsv-split,29x-unknown]"] = Frame(wire.CmdHeaders, HeadersPayload(list...))
+	}
 	Letters["headers[unknown]+unframed[bsv-split]"] = append(append([]byte{}, Frame(wire.CmdHeaders, HeadersPayload(UnknownHeader))...), HeadersPayload(BSVSplit)...)
 	add("notfound", Frame(wire.CmdNotFound, invPayload(wire.InvTypeTx, *tx0.TxHash())))
 	add("getheaders", Msg(wire.NewMsgGetHeaders()))
